@@ -17,7 +17,7 @@ RULE = (
     "tuples of EXECUTED elementary moves for which a reverse move existed and the detailed-balance identity was evaluated"
 )
 FAULT_KEYS = ["adversarial_choice", "row_permute", "cache_flush", "cache_growth", "cache_created", "exchange_accepted", "exchange_rejected"]
-PROBE_KEYS = ["choice_fidelity_checked",
+PROBE_KEYS = ["sweep_kernels_extracted", "choice_fidelity_checked",
     "db_mutation_pairs", "db_structural_pairs", "db_exchange_pairs", "dup_state_move", "heated_move",
     "multiallelic_move", "recombination_move", "dosage_move", "zero_option_interval", "order_probe",
     "underflow_skip", "sweeps_checked", "partitions_checked",
@@ -48,6 +48,8 @@ def gen_config(rng, tier, index=0):
 
 
 def execute(ctx):
+    if ctx.config.get("sweep_kernel"):
+        wl_assemble.check_mutation_sweep_kernel(ctx, ctx.config)
     sim = wl_assemble.AssembleSim(ctx, ctx.config, checks=("db",), probe_budget=8)
     sim.run()
 
